@@ -1,6 +1,8 @@
 //! The case language: one `Case` = one monitored interaction with memchr,
 //! serialisable (for replay files) and hashable (for distinct counting).
 
+#[allow(unused_imports)]
+use crate::prelude::*;
 use crate::mem::Place;
 use crate::util::{hash_bytes, hash_u64, hex, json_escape, json_get, unhex};
 
